@@ -252,24 +252,24 @@ func (r *Report) Finish(verifDir, checkerCmd string) int {
 		constructs[o.Rule+"/"+o.Construct] = true
 	}
 	cov := map[string]any{
-		"explanation":           r.Explanation,
-		"obligations":           len(r.Obls),
-		"discharged":            nDis,
-		"known_findings":        nKnown,
-		"unlisted_violations":   nViol,
-		"obligations_per_rule":  perRule,
-		"evaluations":           len(r.Obls),
-		"distinct_nontrivial":   len(constructs),
-		"rule":                  "one obligation per (rule, semantic construct) instance found in the type-checked/SSA program; distinct = distinct rule/construct keys; every one is non-trivial in that it names a concrete source construct that was inspected",
-		"samples":               samples,
-		"checker_cmd":           checkerCmd,
-		"trusted_base":          []string{"go/types, go/ssa, go/cfg, callgraph/vta from golang.org/x/tools v0.50.0", "the rule implementations under /verif/checker/internal/rules"},
-		"analysed":              r.Analysed,
-		"rules":                 r.RuleTexts,
-		"not_decided":           r.NotDecided,
-		"configurations":        r.Configs,
-		"stale_known_findings":  stale,
-		"exhaustive":            false,
+		"explanation":          r.Explanation,
+		"obligations":          len(r.Obls),
+		"discharged":           nDis,
+		"known_findings":       nKnown,
+		"unlisted_violations":  nViol,
+		"obligations_per_rule": perRule,
+		"evaluations":          len(r.Obls),
+		"distinct_nontrivial":  len(constructs),
+		"rule":                 "one obligation per (rule, semantic construct) instance found in the type-checked/SSA program; distinct = distinct rule/construct keys; every one is non-trivial in that it names a concrete source construct that was inspected",
+		"samples":              samples,
+		"checker_cmd":          checkerCmd,
+		"trusted_base":         []string{"go/types, go/ssa, go/cfg, callgraph/vta from golang.org/x/tools v0.50.0", "the rule implementations under /verif/checker/internal/rules"},
+		"analysed":             r.Analysed,
+		"rules":                r.RuleTexts,
+		"not_decided":          r.NotDecided,
+		"configurations":       r.Configs,
+		"stale_known_findings": stale,
+		"exhaustive":           false,
 	}
 	ev := map[string]any{
 		"property_id": r.Prop,
